@@ -242,18 +242,32 @@ Section Total.
       destruct IH as [I1 I2]. split; [constructor; auto|discriminate].
   Qed.
 
-  Lemma slots_consistent_coherent (r : rec payload) : Coherent r ->
-    forall suf pre, rlist r = pre ++ suf -> slots_consistent (rdict r) suf (Z.of_nat (length pre)) = true.
+  (* a coherent record is in sync: no self-consistency error *)
+  Lemma in_sync_coherent (r : rec payload) : Coherent r -> forallb (slot_in_sync (rdict r)) (rlist r) = true.
+  Proof.
+    intros [ND HD HL HT]. apply forallb_forall. intros [c|] Hin; [|reflexivity].
+    apply In_nth_error in Hin as [n Hn]. destruct (HL _ _ Hn) as [Hi Hd]. simpl.
+    rewrite (in_assoc _ _ _ ND Hd), Hi, Z.eqb_refl, str_eqb_refl. reflexivity.
+  Qed.
+
+  Lemma index_sync_coherent (r : rec payload) ln : Coherent r ->
+    forall suf pre, rlist r = pre ++ suf -> index_sync_errs suf (Z.of_nat (length pre)) ln = [].
   Proof.
     intros [ND HD HL HT]. induction suf as [|[c|] suf IH]; intros pre E; simpl; [reflexivity| |].
     - assert (Hn : nth_error (rlist r) (length pre) = Some (Some c)).
       { rewrite E, nth_error_app2, Nat.sub_diag by lia. reflexivity. }
-      destruct (HL _ _ Hn) as [Hi Hin]. rewrite Hi.
-      rewrite (in_assoc _ _ _ ND Hin), Hi, Z.eqb_refl, str_eqb_refl. simpl.
+      destruct (HL _ _ Hn) as [Hi _]. rewrite Hi, Z.eqb_refl. simpl.
       replace (Z.of_nat (length pre) + 1) with (Z.of_nat (length (pre ++ [Some c]))) by (rewrite app_length; simpl; lia).
       apply IH. now rewrite <- app_assoc.
     - replace (Z.of_nat (length pre) + 1) with (Z.of_nat (length (pre ++ [@None column]))) by (rewrite app_length; simpl; lia).
       apply IH. now rewrite <- app_assoc.
+  Qed.
+
+  Lemma sync_errs_coherent (r : rec payload) ln :
+    Coherent r -> length (rdict r) = length (rlist r) -> sync_errs r ln = [].
+  Proof.
+    intros Hc Hl. unfold sync_errs. rewrite Hl, Nat.eqb_refl, (in_sync_coherent r Hc). simpl.
+    apply (index_sync_coherent r ln Hc (rlist r) []). reflexivity.
   Qed.
 
   Lemma rv_core_ok (r : rec payload) i ln errs_in :
@@ -264,13 +278,10 @@ Section Total.
     pose proof (validate_slots_clean (rlist r) 0 ln Hcl) as Hv.
     destruct (validate_slots sem (rlist r) 0 false None ln) as [[es fn] sl'].
     destruct Hv as [Hat Hfn].
-    assert (Hass : fn = false -> asserts_hold r = true).
-    { intros Hf. specialize (Hfn Hf). unfold asserts_hold.
-      rewrite Hn, Hfn, Nat.eqb_refl. simpl.
-      apply (slots_consistent_coherent r Hc (rlist r) []). reflexivity. }
     destruct fn; simpl.
-    - eexists _, es. split; [reflexivity|assumption].
-    - rewrite Hass by reflexivity. simpl. eexists _, es. split; [reflexivity|assumption].
+    - eexists _, es. rewrite app_nil_r. split; [reflexivity|assumption].
+    - rewrite sync_errs_coherent; [|assumption|rewrite Hn; now apply Hfn].
+      eexists _, es. rewrite app_nil_r. split; [reflexivity|assumption].
   Qed.
 
   Lemma loop_inv_empty : loop_inv empty_rec 0.
